@@ -4,11 +4,13 @@ From SCC Require Import Base.Sexp Model.RunBase Model.RunPM Model.RunX86.
 From SCC Require Import Base.Sexp Model.RunBase Model.RunPM Model.RunStages.
 From SCC Require Import Model.RunFun2Core.
 From SCC Require Import Model.RunRT.
+From SCC Require Import Model.RunLin.
 Open Scope string_scope.
 
 Definition dispatch (cmd : string) (input : string) : string :=
   match cmd with
   | "pm" => run_pm input
+  | "lin" => run_lin input
   | "codegen-x86" => run_codegen_x86 input
   | "heap-x86" => run_heap_x86 input
   | "show-x86" => run_show_x86 input
